@@ -128,6 +128,24 @@ def run(ctx: core.Ctx):
     for (inp, got, err), a in zip(refs, ctx.driver.ask(lines)):
         if a.startswith("err") != (err is not None):
             ctx.disagree("R", "iteragg", inp, a, err or f"{len(got)} results")
+    # integer cubes of every width: a window sum is the exact sum (it does not wrap in the cube's own narrow type)
+    for dt, hi in (("int16", 9000), ("uint8", 200), ("int8", 100), ("int32", 2 ** 30), ("uint16", 60000)):
+        for dim in ("time", "lev"):
+            sz = 8
+            cube = np.array([[[rng.randint(hi // 2, hi) for _ in range(2)] for _ in range(2)] for _ in range(sz)]).astype(dt)
+            coords = {"time": pd.date_range("2000-01-01", periods=sz, freq="10D")} if dim == "time" else {"lev": np.arange(sz) * 5 + 3}
+            dai = xr.DataArray(cube, dims=(dim, "y", "x"), coords=coords)
+            for n in (1, 3, 6):
+                got = list(dai.hdc.iteragg.sum(n, dim=dim))
+                want = [(l - n + 1, l + 1) for l in range(sz - 1, -1, -1) if l - n + 1 >= 0]
+                ctx.case(("int-sum", dt, dim, n), sample=dict(op="sum", dtype=dt, dim=dim, n=n))
+                ctx.count("integer cube sums")
+                for g, (jj, ii) in zip(got, want):
+                    ref = cube[jj:ii].astype(np.int64).sum(axis=0)
+                    if not np.array_equal(np.asarray(g).squeeze().astype(np.int64), ref):
+                        ctx.fail("iteragg", dict(op="sum", dtype=dt, dim=dim, n=n, window=[jj, ii], values=cube[jj:ii, 0, 0].tolist()),
+                                 np.asarray(g).squeeze().tolist(), ref.tolist(), note="each result is the sum of its window")
+                        break
     ctx.trusted += ["native model driver (Hdc/Model/Discrete.lean)", "pandas get_indexer (external)", "harness/props/c19.py oracle"]
 
 
